@@ -342,9 +342,9 @@ def nontrivial(c, o):
 
 
 def pregen(ctx):
-    """tie (T): re-translate readouts/base.py, rls.py, lms.py of the tree under test into coq/gen/Gen_online.v"""
+    """tie (T): re-translate readouts/base.py, rls.py, lms.py (coq/gen/Gen_online.v) and intrinsic_plasticity.py (Gen_ip.v) of the tree under test"""
     from vlib import gen
-    return gen.pregen_units(["online"])
+    return gen.pregen_units(["online", "ip"])
 
 
 def correspondence(ctx):
@@ -375,7 +375,7 @@ def correspondence(ctx):
     failing, err = core.run_cases(ctx.pid, IMPORTS, terms, chunk=40)
     # the kernels GENERATED from the current source (tie T: rls.py, lms.py, readouts/base.py), run at Q inside the same train loop
     from vlib import gen
-    gfail, gerr, ngen = gen.rerun_generated(ctx.pid, IMPORTS_GEN, terms, {"chk_rls ": "chk_gen_rls ", "chk_lms ": "chk_gen_lms "}, chunk=40)
+    gfail, gerr, ngen = gen.rerun_generated(ctx.pid, IMPORTS_GEN, terms, {"chk_rls ": "chk_gen_rls ", "chk_lms ": "chk_gen_lms ", "chk_ip ": "chk_gen_ip "}, chunk=40)
     dist["generated-kernel runs"], dist["generated-kernel disagreements"] = ngen, len(gfail)
     if gerr:
         err = (err or "") + "generated kernels: " + gerr
